@@ -101,8 +101,7 @@ class TokenParser:
 
     @property
     def is_at_eol(self) -> bool:
-        remaining_part_of_current_line = self.token_stream.remaining_part_of_current_line
-        return not remaining_part_of_current_line or remaining_part_of_current_line.isspace()
+        return self.token_stream.remaining_part_of_current_line_is_empty
 
     @property
     def has_current_line(self) -> bool:
